@@ -98,6 +98,14 @@ Checks(ln) ==
      <<"intersect", Acc(ln, ln.meet, MeetI(x, y), TRUE)>>, <<"intersect2", Acc(ln, ln.meet2, MeetI(x, y), TRUE)>>,
      <<"difference", Acc(ln, ln.diff, DiffI(x, y), TRUE)>>,
      <<"add-aliased", Acc(ln, ln.addself, AddI(x, x), TRUE)>>, <<"mul-aliased", Acc(ln, ln.mulalias, MulI(x, y), TRUE)>>,
+     <<"add-dst=first", Acc(ln, ln.add1, AddI(x, y), TRUE)>>, <<"add-dst=second", Acc(ln, ln.add2, AddI(x, y), TRUE)>>,
+     <<"sub-dst=first", Acc(ln, ln.sub1, SubI(x, y), TRUE)>>, <<"sub-dst=second", Acc(ln, ln.sub2, SubI(x, y), TRUE)>>,
+     <<"mul-dst=second", Acc(ln, ln.mul2, MulI(x, y), TRUE)>>,
+     <<"div-dst=first", Acc(ln, ln.div1, DivI(x, y), ~ZeroInside(y))>>, <<"div-dst=second", Acc(ln, ln.div2, DivI(x, y), ~ZeroInside(y))>>,
+     \* x - x and x * x with all three the same object: the interval operation (not the pointwise one)
+     <<"sub-all-aliased", Acc(ln, ln.subself, SubI(x, x), TRUE)>>, <<"mul-all-aliased", Acc(ln, ln.mulself, MulI(x, x), TRUE)>>,
+     <<"join-dst=second", Acc(ln, ln.join3, JoinI(x, y), TRUE)>>, <<"intersect-dst=second", Acc(ln, ln.meet3, MeetI(x, y), TRUE)>>,
+     <<"neg-aliased", Acc(ln, ln.negself, NegI(x), TRUE)>>,
      <<"refine", Acc(ln, ln.refine, MeetI(x, RelI(ln.rel, k)), TRUE)>>,
      \* predicates: exact for exact types (the operands are then represented exactly); for inexact ones only when the operands were
      <<"contains", IF ~SameI(IvJ(ln.rx), x) \/ ~SameI(IvJ(ln.ry), y) THEN "und" ELSE IF ln.contains = SubsetI(y, x) THEN "ok" ELSE "bad">>,
